@@ -294,7 +294,11 @@ func runSched(r *vh.Rng, out *vh.Out, mult int) {
 	}
 	// (3) a caller descheduled between its reading and its increment while the others make k calls, the clock
 	//     moving on by d before each of them. At most 16384 returns in total: spec-backed (distinct).
-	for i := 0; i < 6*mult; i++ {
+	long := mult // the long schedules cost 10^4..10^5 lock-step hand-overs each: x5 in the thorough tier
+	if long > 5 {
+		long = 5
+	}
+	for i := 0; i < 6*long; i++ {
 		k := []int{16382, 16000, 8191, 4096, 16381}[r.Intn(5)]
 		d := []int64{0, 100, 1000}[r.Intn(3)]
 		a, b := r.Intn(k), 0
@@ -305,7 +309,7 @@ func runSched(r *vh.Rng, out *vh.Out, mult int) {
 	//     More than 16384 returns: the model says exactly which results repeat (C19_conc_dup_iff): with k+1 = 16384m
 	//     calls in between and the two readings on one tick the descheduled caller gets a UUID already handed out
 	//     (KF-C19-1 b, C19_conc_dup_descheduled) although the clock advanced before every single call; model vs code.
-	for i := 0; i < 5*mult; i++ {
+	for i := 0; i < 5*long; i++ {
 		k := []int{16383, 16383, 16384, 16382, 32767, 20000}[r.Intn(6)]
 		d := []int64{100, 100, 1000, 0, 250}[r.Intn(5)]
 		first := "n0 n1"
